@@ -619,6 +619,9 @@ def run(ck):
     ])
     ck.floor("C03-DICTRESET", 5)
     check_dict_siblings(ck, prog)
+    # "all Check IDs": a valid file with a SHA-256 Check is accepted only if the decoder computes the standard hash
+    from . import C14
+    C14.check_sha(ck, prog)
     # a decoder (or a filter behind it) that is re-used for the next Block/Stream starts from what its init function
     # stores, not from what the previous Block left (delta history, LZMA2 need_properties, ...)
     ck.rule("C03-READFIRST", "decoders and filters: what the coding function can read before storing to it is stored by the init function on every path returning LZMA_OK")
